@@ -16,6 +16,7 @@ from . import c02, c07
 import propka.run
 
 ID = 'C03'
+HORIZON_S = 1800   # one case = one input under all its transformations
 LEVEL = 'model_checking'
 LEVEL_TEXT = ('Explicit-state breadth-first search over the global state of the package: the state is a generic by-value snapshot of '
               'every global and class attribute of every propka.* module plus logger configuration; the transitions are real API/CLI '
